@@ -13,8 +13,19 @@ let q_of num den = { qnum = z_of_int num; qden = pos_of_int den }
 let float_of_q q = float_of_int (int_of_z q.qnum) /. float_of_int (int_of_pos q.qden)
 let run_sched () =
   let upper = getn () in
-  let res = getlist (fun () -> let w = getlist (fun () -> geti () <> 0) in let l = getlist getn in mk_resource w l) in
   let start = z_of_int (geti ()) in let g = z_of_int (geti ()) in
+  let getiv () = let a = z_of_int (geti ()) in let b = z_of_int (geti ()) in let c = z_of_int (geti ()) in let d = z_of_int (geti ()) in ((a, b), (c, d)) in
+  let res = getlist (fun () ->
+      let kind = geti () in
+      if kind = 0 then (let w = getlist (fun () -> geti () <> 0) in let l = getlist getn in mk_resource w l)
+      else begin
+        (* calendar computed inside the model: hours table (or default), blocked intervals *)
+        let has = geti () <> 0 in
+        let tbl = if has then Some (getlist (fun () -> let k = z_of_int (geti ()) in let l = getlist getiv in (k, l))) else None in
+        let off = getlist (fun () -> let a = z_of_int (geti ()) in let b = z_of_int (geti ()) in (a, b)) in
+        let l = getlist getn in
+        mk_resource_cal tbl off start g upper l
+      end) in
   let lims = getlist (fun () -> let v = getn () in let per = z_of_int (geti ()) in let o = geti () in
                         mk_limit v start g per (if o < 0 then None else Some (nat_of_int o))) in
   let tasks = getlist (fun () ->
